@@ -1,5 +1,7 @@
-import Driver.Util
-/-! `drv_timer`: not built yet -/
+import Driver.TimerDrv
+open Driver
+
 def main : IO UInt32 := do
-  IO.eprintln "drv_timer: engine not implemented"
-  return 2
+  let lines ← readLines (← IO.getStdin) #[]
+  TimerDrv.main lines
+  return 0
